@@ -771,6 +771,7 @@ func (s *Server) netServe() error {
 
 				// write to client
 				if len(client.out) > 0 {
+					verifPoint("prewrite.beforeTest")
 					if s.aofdirty.Load() {
 						func() {
 							// prewrite
@@ -778,8 +779,12 @@ func (s *Server) netServe() error {
 							defer s.mu.Unlock()
 							s.flushAOF(false)
 						}()
+						verifPoint("prewrite.afterFlush")
 						s.aofdirty.Store(false)
+						verifPoint("prewrite.afterClear")
 					}
+					verifPoint("prewrite.beforeSend")
+					s.verifBeforeSend()
 					conn.Write(client.out)
 					client.out = nil
 				}
@@ -1478,6 +1483,8 @@ func (s *Server) command(msg *Message, client *Client) (
 		res, err = s.cmdTEST(msg)
 	case "monitor":
 		res, err = s.cmdMonitor(msg)
+	case "verif":
+		res, err = s.cmdVerif(msg)
 	}
 
 	s.sendMonitor(err, msg, client, false)
